@@ -275,32 +275,60 @@ func rulePollLookup(c *Ctx) {
 	}
 	grp := paramObjOf(info, get.Type, 0)
 	idp := paramObjOf(info, get.Type, 1)
-	// every index into conns uses the group parameter
+	// every index into conns uses the group parameter; every slice looked at IS conns[group]
+	// (directly or through a local that holds it)
+	genv := newProvEnv(pk, get)
 	okGroup, nIdx := true, 0
+	groupSlice := ""
 	ast.Inspect(get.Body, func(n ast.Node) bool {
 		if ix, ok := n.(*ast.IndexExpr); ok && strings.HasSuffix(exprString(ix.X), ".conns") {
 			nIdx++
 			if !isObj(info, ix.Index, grp) {
 				okGroup = false
+			} else {
+				groupSlice = genv.prov(ix)
 			}
 		}
 		return true
 	})
+	nUse := 0
 	ast.Inspect(get.Body, func(n ast.Node) bool {
-		if rs, ok := n.(*ast.RangeStmt); ok && strings.HasSuffix(exprString(rs.X), ".conns") {
-			okGroup = false // iterating over the whole registry
+		switch x := n.(type) {
+		case *ast.RangeStmt:
+			nUse++
+			if genv.prov(x.X) != groupSlice {
+				okGroup = false // iterating over something else than the addressed group
+			}
+		case *ast.ReturnStmt:
+			if len(x.Results) == 2 {
+				if ix, ok := ast.Unparen(x.Results[0]).(*ast.IndexExpr); ok {
+					nUse++
+					if genv.prov(ix.X) != groupSlice {
+						okGroup = false
+					}
+				}
+			}
 		}
 		return true
 	})
-	c.check(okGroup && nIdx >= 2, "poll/lookup/same-group", get.Pos(), "get looks only at the connections of the addressed group", "get indexes the registry with something other than the addressed group: a message can be handed to another group")
-	// empty group ⇒ not found, id match ⇒ that connection
+	c.check(okGroup && nIdx >= 1 && nUse >= 2 && groupSlice != "", "poll/lookup/same-group", get.Pos(), "get looks only at the connections of the addressed group", "get indexes the registry with something other than the addressed group: a message can be handed to another group")
+	// empty group ⇒ not found, before anything is indexed: a top-level early exit
 	emptyFirst := false
-	if len(get.Body.List) > 0 {
-		if ifs, ok := get.Body.List[0].(*ast.IfStmt); ok && strings.Contains(exprString(ifs.Cond), "len(") && strings.HasSuffix(exprString(ifs.Cond), "== 0") && exits(ifs.Body) {
+	for _, st := range get.Body.List {
+		ifs, ok := st.(*ast.IfStmt)
+		if !ok {
+			if _, isAssign := st.(*ast.AssignStmt); isAssign {
+				continue // naming the group's slice
+			}
+			break
+		}
+		atoms := genv.condAtoms(ifs.Cond, false)
+		if len(atoms) == 1 && atoms[0] == "(len("+groupSlice+") == 0)" && exits(ifs.Body) {
 			if rs, ok := ifs.Body.List[len(ifs.Body.List)-1].(*ast.ReturnStmt); ok && len(rs.Results) == 2 && exprString(rs.Results[1]) == "false" {
 				emptyFirst = true
 			}
 		}
+		break
 	}
 	c.check(emptyFirst, "poll/lookup/empty-group", get.Pos(), "no listener in the group ⇒ not found", "get no longer reports `not found` for a group without listeners (it would index an empty slice)")
 	idMatch := false
@@ -454,7 +482,7 @@ func ruleSenderResolution(c *Ctx) {
 				if i < len(as.Rhs) {
 					r = as.Rhs[i]
 				}
-				defs = append(defs, def{env.prov(r), env.enclosingConds(fd.Body, as), as.Pos()})
+				defs = append(defs, def{env.prov(r), env.enclosingCondsStrict(fd.Body, as), as.Pos()})
 			}
 		}
 		return true
@@ -469,6 +497,10 @@ func ruleSenderResolution(c *Ctx) {
 		"sender.schemeToRecv(*var:logicalRecv) when (var:logicalRecv != nil) ∧ (param:w.targets[*var:logicalRecv] == nil)",
 		"var:physicalRecv when (var:logicalRecv == nil)",
 	}
+	// each definition carries the conditions under which it applies (the scheme fallback names the
+	// failed target lookup), so the set is compared: the textual order of the branches is free
+	sort.Strings(got)
+	sort.Strings(want)
 	ok := len(got) == len(want)
 	for i := range want {
 		if ok && got[i] != want[i] {
